@@ -290,6 +290,9 @@ func Note(s string) { Notes = append(Notes, s) }
 // Override replaces a function of the code under test by a harness function during symbolic execution.
 func Override(name string, fn interface{}) {}
 
+// Abstract replaces a dependency function by an arbitrary (possibly failing) result during symbolic execution.
+func Abstract(name string) {}
+
 // RunNative runs a harness natively, turning a failed assumption into "not applicable".
 func RunNative(f func()) (ok bool) {
 	defer func() {
